@@ -37,9 +37,18 @@ def describe(evt):
         dc = -1
     elif isinstance(d, int):
         dc = d
+        if hasattr(evt, "illuminance") and evt.illuminance != d:        # the light event's own accessor
+            dc = -2
     elif hasattr(d, "movement"):
         dc = (1 if d.movement else 0) + (2 if d.occupied else 0) + (4 if d.repeat else 0) + \
              (8 if d.sensor_type == "movement" else 0 if d.sensor_type == "presence" else 1024)
+        # the event's own accessors say the same as the tuple (they are what applications read)
+        try:
+            for nm in ("movement", "occupied", "repeat", "sensor_type"):
+                if hasattr(evt, nm) and getattr(evt, nm) != getattr(d, nm):
+                    dc = -2
+        except Exception:
+            dc = -2
     else:
         dc = -2
     return [n, _nz(sa.address if sa is not None else None), _nz(evt.instance_number), _nz(evt.device_group),
